@@ -954,3 +954,45 @@ def check_validation(case, ctx):
 
 SUBS.append(Sub('validation', check_validation, enumerate=validation_cases, shards_quick=8, shards_thorough=16, budget_quick=120, budget_thorough=3000))
 SUBS.append(Sub('validation-mixed', check_validation, strategy=validation_strategy(), quick=4000, thorough=300000, shards_quick=8, budget_quick=60))
+
+
+# --------------------------------------------------------------------------- value soup: the soup sub rarely completes a declaration around a function
+
+VALUE_FRAGS = [
+    'var(x)', 'var(x, 1px)', 'var(x, 1px, 2px)', 'var(x,', 'var(,)', 'var(x y)', 'var(x, var(y, var(z, 1)))', 'var(x,,)', 'v\\ar(x)', 'VAR(X)',
+    'r\\gb(1,2,3)', 'R\\GB(1,2,3)', '\\hsl(120,50%,50%)', 'hs\\la(1,2%,3%,.5)', '\\72gb(1,2,3)', 'rgb(1,2,3,4)', 'rgb()', 'rgb(a)', 'rgba(1,2,3)',
+    'rgb(1 2 3)', 'rgb(1,2,3', 'hsl(0, ' + '9' * 400 + '%, 50%)', 'rgb(' + '9' * 400 + '%,1%,1%)', 'hsl(' + '9' * 400 + ',1%,1%)',
+    'hsl(0, ' + '9' * 300 + '.5%, ' + '9' * 300 + '.5%)', 'rgba(1,2,3,' + '9' * 400 + ')', 'rgb(-1,256,1e3)', 'rgb(1.5,2,3)', 'rgb(+1,2,3)',
+    '#abc\\a ', '#ab\\63 ', '#\\61 bc', '#abcd', '#ab', '#abcdefa', '#ABCDEF', '#abc\\', '#abg', '#\\', '#-', '#0000000',
+    'c\\alc(1px + 2px)', 'calc(1px + var(x, 2px))', 'calc(calc(1px))', 'calc()', 'calc(1px +)', 'calc(+)', 'calc(1px*2)', 'calc(1px/0)', 'CALC( 1PX )',
+    'u\\rl(x)', 'url(\\)', 'url()', 'url("")', 'url( )', 'url(a b)', 'url(a\\ b)', 'attr(x, y, z)', 'counter(a, b, c)', 'counters(a)', 'f(g(h(1)))',
+    'f()', 'f(,)', 'f(;)', 'f({})', 'f([)', '1e999', '9' * 400, '9' * 400 + '.5', '-' + '9' * 400 + 'px', '.' + '0' * 400 + '1', '0' * 400, '1.', '.', '+.5',
+    '+-1', '--1', '1px/2px', '/', ',', '1,,2', '!x', '!', 'U+1-2-3', 'u+??????1', 'u+110000', 'U+0-', 'expression(a(b)c)', 'progid:x.y(z=1)',
+    '"\\', "'\\'", '"\\\n"', 'inherit inherit', 'inherit', 'red', '1px', '1PX', '1\\70x', '1p\\78', '1\\px', '50%', '%', '1%%', 'a\\(', '\\(', '\\', '\\2c',
+    'a=b', 'x:y', '@x', '<!--', '-->', '{}', '[]', '()', '(', '[', ')', ']', 'a|b', '*', '~', '>', 'and(', 'not(', 'local(x)', 'format("x")',
+    'rect(0,0,0,0)', 'rect(0 0 0 0)', 'rect(', 'counter(', 'attr(', 'url(', 'DXImageTransform.Microsoft.gradient(a=1,b=#fff)',
+]
+VALUE_CONTEXTS = ['a{x:%s}', 'a{color:%s}', 'a{margin:%s;top:0}', '@variables{y:%s}', '@variables{y:%s} a{top:var(y)}', '%s', 'x:%s', 'color:%s;',
+                  '@media print{a{width:%s}}', '@page{margin:%s}', '@page{@top-left{content:%s}}', '@font-face{src:%s}', 'a{background:%s',
+                  '@import url(x) %s;', '@media %s{a{top:0}}', 'a[b=%s]{top:0}', 'a:not(%s){top:0}', 'a{x:f(%s)}', 'a{x:var(z, %s)}', 'a{x:calc(1px + %s)}']
+value_strategy = st.fixed_dictionaries({
+    'frags': st.lists(st.sampled_from(VALUE_FRAGS), min_size=1, max_size=3),
+    'sep': st.sampled_from([' ', ' ', ',', ', ', '/', '']),
+    'ctx': st.integers(0, len(VALUE_CONTEXTS) - 1),
+    'prio': st.sampled_from(['', '', ' !important', '!IMPORTANT', ' !x']),
+    'cfg': CONFIG,
+})
+
+
+def check_value(case, ctx):
+    value = case['sep'].join(case['frags']) + case['prio']
+    text = VALUE_CONTEXTS[case['ctx']].replace('%s', value)
+    cfg = dict(case['cfg'])
+    if VALUE_CONTEXTS[case['ctx']] in ('x:%s', 'color:%s;', '%s'):
+        cfg['entry'] = 'style' if VALUE_CONTEXTS[case['ctx']] != '%s' else cfg['entry']
+    cost, recs, nrules = run_one(text, cfg, ctx)
+    ctx.event('value-context:%d' % case['ctx'])
+    ctx.case([text, sorted(cfg.items())], True, {'text': text[:200], 'cfg': cfg, 'cost': cost})
+
+
+SUBS.append(Sub('values', check_value, strategy=value_strategy, quick=6000, thorough=400000, shards_quick=8, budget_quick=60))
